@@ -6,8 +6,13 @@
    (`shape`); lib/gen_C04.py regenerates the shape of the *current* /repo into Gen_C04.v:
      wake  il calling looping : the test in EventLoop::queueInLoop that guards wakeup()
                                 (il = isInLoopThread());
-     resets                   : does EventLoop::loop() assign quit_ = false on entry;
+     resets                   : where EventLoop::loop() assigns quit_ = false: before its while
+                                loop (ResetEntry, the pinned tree), after it (ResetExit, the tree
+                                since the repair of F-3) or nowhere (ResetNone);
      qwake il                 : the test in EventLoop::quit() that guards wakeup().
+
+   loop() may be called again after it returned: the loop thread's program is
+   prefix; loop(); seg1; loop(); seg2; loop(); ...   (`lnext` holds the segments still to come).
 
    Threads: the loop thread (who = 0) and foreign threads (who = S i, i the index in `fcode`).
    A thread's code is a list of micro-operations; a step executes one.  Sequential consistency
@@ -15,21 +20,34 @@
 From Coq Require Import List Bool Arith.
 Import ListNotations.
 
+Inductive rmode := ResetEntry | ResetExit | ResetNone.
+
 Record shape := mkShape {
   wake : bool -> bool -> bool -> bool;
-  resets : bool;
+  resets : rmode;
   qwake : bool -> bool }.
 
-(* EventLoop.cc of the pinned tree: `!isInLoopThread() || callingPendingFunctors_`,
-   `quit_ = false` in loop(), `if (!isInLoopThread()) wakeup()` in quit() *)
+Definition rmode_eqb (a b : rmode) : bool :=
+  match a, b with
+  | ResetEntry, ResetEntry | ResetExit, ResetExit | ResetNone, ResetNone => true
+  | _, _ => false
+  end.
+Definition resets_on_entry (sh : shape) : bool := rmode_eqb (resets sh) ResetEntry.
+
+(* EventLoop.cc of the pinned tree (e88bba0): `!isInLoopThread() || callingPendingFunctors_`,
+   `quit_ = false` on entry of loop(), `if (!isInLoopThread()) wakeup()` in quit() *)
 Definition pinned_shape : shape :=
-  mkShape (fun il c _ => negb il || c) true (fun il => negb il).
-(* candidate repair of F-2: also wake when the loop is not (yet) looping;
-   candidate repair of F-3: loop() does not reset quit_ *)
+  mkShape (fun il c _ => negb il || c) ResetEntry (fun il => negb il).
+(* the tree after the repairs of F-2 (6e27b45: also wake when the loop is not (yet) looping) and
+   F-3 (a2dcf3b: quit_ is cleared after the while loop, not before it) *)
+Definition fixed_shape : shape :=
+  mkShape (fun il c l => negb il || c || negb l) ResetExit (fun il => negb il).
+(* the other candidate repair of F-3: loop() never resets quit_ *)
 Definition repaired_shape : shape :=
-  mkShape (fun il c l => negb il || c || negb l) false (fun il => negb il).
+  mkShape (fun il c l => negb il || c || negb l) ResetNone (fun il => negb il).
+(* F-2 repaired, F-3 not (the tree at 6e27b45) *)
 Definition repaired_F2_shape : shape :=
-  mkShape (fun il c l => negb il || c || negb l) true (fun il => negb il).
+  mkShape (fun il c l => negb il || c || negb l) ResetEntry (fun il => negb il).
 
 (* user-level actions: what a piece of user code (a foreign thread's program, the code before
    loop(), an I/O or timer callback, a functor) may do with the loop *)
@@ -44,15 +62,15 @@ Inductive mop :=
 | MQueue (t : nat)     (* { lock; pendingFunctors_.push_back; unlock } *)
 | MWakeTest            (* if (wake-test) wakeup()   -- the thread is between append and wake-up *)
 | MExec (t : nat)      (* runInLoop on the loop thread: cb() now *)
-| MQuitStore           (* quit_ = true *)
-| MQuitWake            (* if (!isInLoopThread()) wakeup()  -- between store and wake-up *)
+| MQuitStore           (* quit_ = true   (then the thread is between store and wake-up) *)
+| MQuitWake            (* if (!isInLoopThread()) wakeup() *)
 | MOffer (k : nat).
 
 Definition expand (il : bool) (a : act) : list mop :=
   match a with
   | AQueue t => [MQueue t]
   | ARun t => if il then [MExec t] else [MQueue t]
-  | AQuit => [MQuitStore; MQuitWake]
+  | AQuit => [MQuitStore]
   | AOffer k => [MOffer k]
   end.
 Definition expand_all (il : bool) (l : list act) : list mop := flat_map (expand il) l.
@@ -63,7 +81,8 @@ Inductive ev :=
 | EExecQ (t : nat)     (* task t taken from a batch and run (always by the loop thread) *)
 | EExecI (t : nat)     (* task t run inline by runInLoop on the loop thread *)
 | EQuit (who : nat)    (* quit_ stored *)
-| EWake (who : nat).   (* eventfd written *)
+| EWake (who : nat)    (* eventfd written *)
+| ERet.                (* loop() returned *)
 
 (* shared memory *)
 Record shared := mkG {
@@ -93,7 +112,8 @@ Definition exec_mop (sh : shape) (scr : scripts) (who : nat) (il : bool) (m : mo
             expand_all true (scr t) ++ rest)
       else (g, rest)
   | MQuitStore =>
-      (mkG (pending g) (evfd g) (evq g) true (calling g) (looping g) (log g ++ [EQuit who]), rest)
+      (mkG (pending g) (evfd g) (evq g) true (calling g) (looping g) (log g ++ [EQuit who]),
+       MQuitWake :: rest)
   | MQuitWake =>
       if qwake sh il
       then (mkG (pending g) (S (evfd g)) (evq g) (quit g) (calling g) (looping g) (log g ++ [EWake who]), rest)
@@ -110,9 +130,11 @@ Inductive lpc :=
 | LHandle (wk : bool)  (* L4: dispatching; wk = the wake-up channel is active and not yet read *)
 | LSwap                (* L5: callingPendingFunctors_ set, before the swap section *)
 | LRun (b : list nat)  (* L6: running the batch; b = functors not yet started *)
-| LDone.               (* L9: loop() returned *)
+| LExit                (* L9: the while loop is left, looping_ = false stored; before `quit_ = false` *)
+| LDone.               (* loop() returned *)
 
-Record st := mkSt { sg : shared; pc : lpc; lcode : list mop; fcode : list (list mop) }.
+Record st := mkSt { sg : shared; pc : lpc; lcode : list mop; lnext : list (list mop);
+                    fcode : list (list mop) }.
 
 Inductive label :=
 | TLoop                (* next step of the loop thread *)
@@ -139,58 +161,69 @@ Definition step (sh : shape) (scr : scripts) (s : st) (lab : label) : option st 
       match nth_error (fcode s) i with
       | Some (m :: rest) =>
           let '(g', c') := exec_mop sh scr (S i) false m rest g in
-          Some (mkSt g' (pc s) (lcode s) (upd (fcode s) i c'))
+          Some (mkSt g' (pc s) (lcode s) (lnext s) (upd (fcode s) i c'))
       | _ => None
       end
   | TRead =>
       match pc s with
       | LHandle true =>
           Some (mkSt (mkG (pending g) 0 (evq g) (quit g) (calling g) (looping g) (log g))
-                     (LHandle false) (lcode s) (fcode s))
+                     (LHandle false) (lcode s) (lnext s) (fcode s))
       | _ => None
       end
   | TSpur =>
       match pc s with
-      | LPoll => Some (mkSt g (LHandle (0 <? evfd g)) [] (fcode s))
+      | LPoll => Some (mkSt g (LHandle (0 <? evfd g)) [] (lnext s) (fcode s))
       | _ => None
       end
   | TLoop =>
       match pc s, lcode s with
       | LPre, m :: rest | LHandle _, m :: rest | LRun _, m :: rest =>
           let '(g', c') := exec_mop sh scr 0 true m rest g in
-          Some (mkSt g' (pc s) c' (fcode s))
-      | LPre, [] =>   (* loop(): looping_ = true; quit_ = false *)
-          Some (mkSt (set_flags g (if resets sh then false else quit g) (calling g) true) LTest [] (fcode s))
-      | LTest, _ =>
-          if quit g then Some (mkSt (set_flags g (quit g) (calling g) false) LDone [] (fcode s))
-          else Some (mkSt g LPoll [] (fcode s))
+          Some (mkSt g' (pc s) c' (lnext s) (fcode s))
+      | LPre, [] =>   (* loop(): looping_ = true [; quit_ = false] *)
+          Some (mkSt (set_flags g (if resets_on_entry sh then false else quit g) (calling g) true) LTest []
+                     (lnext s) (fcode s))
+      | LTest, _ =>   (* while (!quit_) ... ; looping_ = false *)
+          if quit g then Some (mkSt (set_flags g (quit g) (calling g) false) LExit [] (lnext s) (fcode s))
+          else Some (mkSt g LPoll [] (lnext s) (fcode s))
       | LPoll, _ =>
           if poll_ready g then
             match evq g with
-            | [] => Some (mkSt g (LHandle (0 <? evfd g)) [] (fcode s))
+            | [] => Some (mkSt g (LHandle (0 <? evfd g)) [] (lnext s) (fcode s))
             | k :: r =>
                 Some (mkSt (mkG (pending g) (evfd g) r (quit g) (calling g) (looping g) (log g))
-                           (LHandle (0 <? evfd g)) (expand_all true (scr k)) (fcode s))
+                           (LHandle (0 <? evfd g)) (expand_all true (scr k)) (lnext s) (fcode s))
             end
           else None
       | LHandle true, [] => None     (* the wake-up channel is handled before the drain *)
-      | LHandle false, [] => Some (mkSt (set_flags g (quit g) true (looping g)) LSwap [] (fcode s))
+      | LHandle false, [] => Some (mkSt (set_flags g (quit g) true (looping g)) LSwap [] (lnext s) (fcode s))
       | LSwap, _ =>
           Some (mkSt (mkG [] (evfd g) (evq g) (quit g) (calling g) (looping g) (log g))
-                     (LRun (pending g)) [] (fcode s))
+                     (LRun (pending g)) [] (lnext s) (fcode s))
       | LRun (t :: b), [] =>
           Some (mkSt (mkG (pending g) (evfd g) (evq g) (quit g) (calling g) (looping g) (log g ++ [EExecQ t]))
-                     (LRun b) (expand_all true (scr t)) (fcode s))
-      | LRun [], [] => Some (mkSt (set_flags g (quit g) false (looping g)) LTest [] (fcode s))
-      | LDone, _ => None
+                     (LRun b) (expand_all true (scr t)) (lnext s) (fcode s))
+      | LRun [], [] => Some (mkSt (set_flags g (quit g) false (looping g)) LTest [] (lnext s) (fcode s))
+      | LExit, _ =>   (* [quit_ = false;] return *)
+          Some (mkSt (mkG (pending g) (evfd g) (evq g)
+                          (match resets sh with ResetExit => false | _ => quit g end)
+                          (calling g) (looping g) (log g ++ [ERet]))
+                     LDone [] (lnext s) (fcode s))
+      | LDone, _ =>   (* the code between two calls of loop(), if there is another call *)
+          match lnext s with
+          | seg :: more => Some (mkSt g LPre seg more (fcode s))
+          | [] => None
+          end
       end
   end.
 
 Definition g0 : shared := mkG [] 0 [] false false false [].
 (* prefix = what the loop thread does between constructing the loop and calling loop();
-   progs = the foreign threads' programs *)
-Definition init (prefix : list act) (progs : list (list act)) : st :=
-  mkSt g0 LPre (expand_all true prefix) (map (expand_all false) progs).
+   later = what it does after each return of loop() before calling loop() again (one segment per
+   further call); progs = the foreign threads' programs *)
+Definition init (prefix : list act) (later : list (list act)) (progs : list (list act)) : st :=
+  mkSt g0 LPre (expand_all true prefix) (map (expand_all true) later) (map (expand_all false) progs).
 
 Fixpoint run (sh : shape) (scr : scripts) (s : st) (labs : list label) : option st :=
   match labs with
@@ -209,6 +242,17 @@ Definition qtasks (c : list mop) : list nat :=
   flat_map (fun m => match m with MQueue t => [t] | _ => [] end) c.
 Definition quit_called (l : list ev) : bool :=
   existsb (fun e => match e with EQuit _ => true | _ => false end) l.
+Definition returned (l : list ev) : bool :=
+  existsb (fun e => match e with ERet => true | _ => false end) l.
+(* has quit_ been stored since loop() last returned (or since the beginning) *)
+Fixpoint qsr (l : list ev) (acc : bool) : bool :=
+  match l with
+  | [] => acc
+  | EQuit _ :: r => qsr r true
+  | ERet :: r => qsr r false
+  | _ :: r => qsr r acc
+  end.
+Definition quit_since_ret (l : list ev) : bool := qsr l false.
 Definition batch (p : lpc) : list nat := match p with LRun b => b | _ => [] end.
 
 (* a thread is between its append and its wake-up, and the wake-up will be written *)
